@@ -539,19 +539,55 @@ def r2_3(ctx: Ctx, rule="R2.3"):
         ctx.ob(rule, em.fb, "frame builder slots", True, "axis/origin slots not recognised", undecided=True)
         return
     ctx.extra["frame_builder_slots"] = {"origin": org_idx, "axis": axis_idx, "plane": 3 - axis_idx - org_idx}
-    # the small-molecule branch
+    # the small-molecule branch: the `if` on the molecule's size whose body builds the single frame
     branch = None
     sizes: List[int] = []
+    size_names = {norm(s_.targets[0]) for s_ in g.node.body if isinstance(s_, ast.Assign)
+                  and isinstance(s_.value, ast.Call) and call_name(s_.value) == "len"}
+
+    def eval_size_test(t, n_):
+        """Truth value of a test on the size for a molecule of n_ atoms (None: not a size test)."""
+        if isinstance(t, ast.UnaryOp) and isinstance(t.op, ast.Not):
+            v_ = eval_size_test(t.operand, n_)
+            return None if v_ is None else (not v_)
+        if isinstance(t, ast.BoolOp):
+            vs = [eval_size_test(v_, n_) for v_ in t.values]
+            if None in vs:
+                return None
+            return all(vs) if isinstance(t.op, ast.And) else any(vs)
+        if isinstance(t, ast.Compare) and len(t.ops) == 1 and (norm(t.left) in size_names or norm(t.left).startswith("len(")):
+            op, c = t.ops[0], t.comparators[0]
+            if isinstance(op, (ast.In, ast.NotIn)) and isinstance(c, (ast.List, ast.Tuple, ast.Set)):
+                vals = [const_int(x) for x in c.elts]
+                if None in vals:
+                    return None
+                return (n_ in vals) == isinstance(op, ast.In)
+            k = const_int(c)
+            if k is None:
+                return None
+            return {ast.Lt: n_ < k, ast.LtE: n_ <= k, ast.Gt: n_ > k, ast.GtE: n_ >= k, ast.Eq: n_ == k,
+                    ast.NotEq: n_ != k}.get(type(op))
+        return None
     for n in walk_no_nested(g.node):
-        if isinstance(n, ast.If):
-            t = n.test
-            if isinstance(t, ast.Compare) and isinstance(t.ops[0], ast.In) and isinstance(t.comparators[0], (ast.List, ast.Tuple, ast.Set)):
-                vals = [const_int(x) for x in t.comparators[0].elts]
-                if all(v is not None for v in vals):
-                    branch, sizes = n, sorted(vals)
-            elif isinstance(t, ast.Compare) and isinstance(t.ops[0], (ast.Lt, ast.LtE)) and const_int(t.comparators[0]) is not None:
-                k = const_int(t.comparators[0])
-                branch, sizes = n, list(range(1, k if isinstance(t.ops[0], ast.Lt) else k + 1))
+        if isinstance(n, ast.If) and eval_size_test(n.test, 1) is not None:
+            in_body = any(call_name(c) == em.fb.name for s_ in n.body for c in calls_in(s_))
+            in_else = any(call_name(c) == em.fb.name for s_ in n.orelse for c in calls_in(s_))
+            truth = [eval_size_test(n.test, k) for k in range(1, 7)]
+            small_when = True if in_body else (False if in_else else None)
+            if small_when is None:
+                continue
+            branch = n if in_body else None
+            sizes = [k for k, tv in zip(range(1, 7), truth) if tv == small_when]
+            general_stmts = n.orelse if in_body else n.body
+            gen_ok = any(call_name(c) == em.recompute_general.name for s_ in general_stmts for c in calls_in(s_))
+            ctx.ob(rule, g, n, sizes == [1, 2] and gen_ok,
+                   "references of one or two atoms take the single-frame branch and every reference of three or more "
+                   "atoms the per-anchor branch" + ("" if sizes == [1, 2] else " -- the single-frame branch is taken for sizes %s (of 1..6)" % sizes),
+                   node=n)
+            if not in_body:
+                # build a pseudo-branch object exposing .body/.test for the code below
+                branch = ast.If(test=ast.UnaryOp(ast.Not(), n.test), body=n.orelse, orelse=n.body)
+            sizes = [k for k in sizes if k <= 2]
     if branch is None:
         ctx.ob(rule, g, "small-reference branch", True, "branch for references of one or two atoms not recognised", undecided=True)
         return
@@ -559,7 +595,7 @@ def r2_3(ctx: Ctx, rule="R2.3"):
     if not fbc:
         ctx.ob(rule, g, branch, False, "the small-reference branch builds a frame with the frame builder -- call not found", node=branch)
         return
-    size_var = norm(branch.test.left) if isinstance(branch.test, ast.Compare) else "n_atoms"
+    size_var = sorted(size_names)[0] if size_names else "n_atoms"
     nob = 0
     for n in sizes:
         env: Dict[str, List[str]] = {}
